@@ -14,7 +14,7 @@ pub fn generate(prop: &str, run_seed: u64, _index: u64, tier: Tier) -> Trace {
     let mut r = root.fork(4);
     let mut t = Trace { world: "strs".into(), prop: prop.into(), seed: run_seed, ..Default::default() };
     t.set_param("setting", rc.below(crate::N_SETTINGS));
-    t.set_param("kind", rc.below(4));
+    t.set_param("kind", if prop == "C15" { 3 } else { rc.below(4) });
     t.set_param("policy", rc.below(5));
     t.set_param("heap_seed", rc.next() >> 16);
     let panic_rate = *rf.pick(&[0u64, 10, 30]);
